@@ -3,6 +3,7 @@ package main
 
 import (
 	"fmt"
+	"math"
 	"sort"
 	"unsafe"
 
@@ -248,6 +249,14 @@ func views(g orb.Geometry) []orb.Geometry {
 	return out
 }
 
+// isNilGeometry: the nil interface or a typed nil slice at the top level (Round returns nil for those).
+func isNilGeometry(g orb.Geometry) bool {
+	if g == nil {
+		return true
+	}
+	return refgeom.Bits(g) != refgeom.Struct(g) && len(fmt.Sprint(g)) <= 2 && refgeom.Bits(orb.Clone(g)) != refgeom.Bits(g)
+}
+
 func kindOf(g orb.Geometry) string {
 	if g == nil {
 		return "nil"
@@ -410,6 +419,77 @@ func main() {
 		}
 		return refgeom.TightBound(mp)
 	}
+	// bound methods: accessors, corners, ring / polygon forms, padding; and orb.Round under every factor
+	r.Explore("bound-methods", fmt.Sprintf("%d boxes x pads {-2,-0.5,0,0.25,1,3}: Left/Right/Top/Bottom/LeftTop/RightBottom/Center, ToRing (5 points, counter-clockwise from Min, closed), ToPolygon, Pad additive, IsZero, IsEmpty, Equal", len(boxes)), mc.Opts{MaxDev: -1}, func(c *mc.Ctx) {
+		b := boxes[c.Choose(len(boxes))]
+		d := []float64{-2, -0.5, 0, 0.25, 1, 3}[c.Choose(6)]
+		if b.Left() != b.Min[0] || b.Right() != b.Max[0] || b.Bottom() != b.Min[1] || b.Top() != b.Max[1] ||
+			b.LeftTop() != (orb.Point{b.Min[0], b.Max[1]}) || b.RightBottom() != (orb.Point{b.Max[0], b.Min[1]}) ||
+			b.Center() != (orb.Point{(b.Min[0] + b.Max[0]) / 2, (b.Min[1] + b.Max[1]) / 2}) || b.Bound() != b || !b.Equal(b) {
+			c.Failf("bound-methods", "accessors of %v disagree with Min/Max: left %v right %v bottom %v top %v lefttop %v rightbottom %v center %v", b, b.Left(), b.Right(), b.Bottom(), b.Top(), b.LeftTop(), b.RightBottom(), b.Center())
+		}
+		wantRing := orb.Ring{b.Min, {b.Max[0], b.Min[1]}, b.Max, {b.Min[0], b.Max[1]}, b.Min}
+		if rg := b.ToRing(); !rg.Equal(wantRing) {
+			c.Failf("bound-methods", "%v.ToRing() = %v, want %v", b, rg, wantRing)
+		}
+		if pg := b.ToPolygon(); len(pg) != 1 || !pg[0].Equal(wantRing) {
+			c.Failf("bound-methods", "%v.ToPolygon() = %v, want the one-ring polygon of %v", b, pg, wantRing)
+		}
+		p := b.Pad(d)
+		if p.Min != (orb.Point{b.Min[0] - d, b.Min[1] - d}) || p.Max != (orb.Point{b.Max[0] + d, b.Max[1] + d}) {
+			c.Failf("bound-methods", "%v.Pad(%v) = %v", b, d, p)
+		}
+		if pp := b.Pad(d).Pad(0.5); pp != b.Pad(d+0.5) {
+			c.Failf("bound-methods", "%v.Pad(%v).Pad(0.5) = %v, Pad(%v) = %v", b, d, pp, d+0.5, b.Pad(d+0.5))
+		}
+		if b.IsZero() != (b.Min == orb.Point{} && b.Max == orb.Point{}) || b.IsEmpty() != (b.Min[0] > b.Max[0] || b.Min[1] > b.Max[1]) {
+			c.Failf("bound-methods", "IsZero / IsEmpty of %v = %v / %v", b, b.IsZero(), b.IsEmpty())
+		}
+		if other := boxes[(c.Trail()[0]+1)%len(boxes)]; b.Equal(other) != (b == other) {
+			c.Failf("bound-methods", "%v.Equal(%v) = %v", b, other, b.Equal(other))
+		}
+		c.NonTrivial()
+	})
+	roundCoords := []float64{0, -0.0000004, 0.0000005, 1.23456789, -1.23456749, 12345.678951, 0.05, 0.15, -2.5, 1e15 + 0.3, 7}
+	for _, drf := range []float64{1e6, 100} {
+		orb.DefaultRoundingFactor = drf
+		r.Explore(fmt.Sprintf("round-default-%v", drf), fmt.Sprintf("orb.DefaultRoundingFactor = %v: the 8 non-collection kinds and collections (k=2,m=2, within 6 deviations) over %d coordinates that sit on and next to rounding boundaries x factor {default, 1, 10, 1000}: every coordinate becomes math.Round(x*f)/f in place, structure kept, rounding twice changes nothing", drf, len(roundCoords)), mc.Opts{MaxDev: 8, Split: 2, NewLocal: func(int) interface{} {
+			next, reset := gg.CyclicAt(roundCoords)
+			return &loc{&gg.Gen{K: 2, M: 2, Depth: 2, NilSlice: true, SortBound: true, Next: next}, reset}
+		}}, func(c *mc.Ctx) {
+			l := c.Local().(*loc)
+			l.reset(c.Choose(len(roundCoords)))
+			fi := c.Choose(4)
+			g := l.g.Kind(c, c.Choose(gg.KCollection+1), 0, true)
+			f := []float64{orb.DefaultRoundingFactor, 1, 10, 1000}[fi]
+			want := refgeom.Map(g, func(p orb.Point) orb.Point { return orb.Point{math.Round(p[0]*f) / f, math.Round(p[1]*f) / f} })
+			arg := orb.Clone(g)
+			var got orb.Geometry
+			if fi == 0 {
+				got = orb.Round(arg)
+			} else {
+				got = orb.Round(arg, int(f))
+			}
+			if isNilGeometry(g) {
+				return
+			}
+			if refgeom.Bits(got) != refgeom.Bits(want) {
+				c.Failf("round", "orb.Round(%T %v, factor %v) = %v, want %v", g, g, f, got, want)
+				return
+			}
+			var again orb.Geometry
+			if fi == 0 {
+				again = orb.Round(orb.Clone(got))
+			} else {
+				again = orb.Round(orb.Clone(got), int(f))
+			}
+			if refgeom.Bits(again) != refgeom.Bits(got) {
+				c.Failf("round", "rounding %v again with factor %v gives %v", got, f, again)
+			}
+			c.NonTrivial()
+		})
+	}
+	orb.DefaultRoundingFactor = 1e6
 	r.Explore("bound-lattice", fmt.Sprintf("all triples of %d boxes (%d non-empty over corners {-3,0,1,2}^2, the empty sentinel, an inverted box) and all 36 lattice points: union commutative / associative / idempotent / tight, extend, contains, intersects, clip.Bound-free absorption", len(boxes), nonEmpty),
 		mc.Opts{MaxDev: -1, Split: 2}, func(c *mc.Ctx) {
 			a, b, d := boxes[c.Choose(len(boxes))], boxes[c.Choose(len(boxes))], boxes[c.Choose(len(boxes))]
